@@ -208,7 +208,8 @@ Definition pmerge_scalar (m : codec_module) (wt : wire_type) : PM val :=
   | MFastStr =>
       (* let mut bytes = Bytes::new(); bytes::merge_one_copy(.., &mut bytes, ..)?   copy_to_bytes(len): a handle on the input
            (none when len = 0);
-         *value = FastStr::from_bytes_unchecked(bytes): up to INLINE_CAP bytes are copied into the value and the handle is
+         *value = FastStr::from_bytes(bytes)?: invalid UTF-8 is an error (faststr_merge fails; `bytes` is dropped with its
+           handle: the ledger is where it was); else up to INLINE_CAP bytes are copied into the value and the handle is
            dropped, longer ones keep it; the previous FastStr is dropped *)
       with_m (faststr_merge wt) (fun v => fun old s L =>
         let h := own_scalar MBytes v in
